@@ -361,6 +361,13 @@ class BehavioralRTLIRToVVisitorL1( bir.BehavioralRTLIRNodeVisitor ):
     if _one_bit:
       _value = value
       return one_bit_template.format( **locals() )
+    elif isinstance( node.value, ( bir.IfExp, bir.UnaryOp, bir.BinOp, bir.Compare,
+                                   bir.Truncate, bir.SizeCast, bir.Reduce ) ):
+      # value[msb] would bind the select to the last operand only (and is not
+      # legal after a cast): select the sign bit from the (self-determined)
+      # concatenation of the expression
+      _value = f"{{ {value} }}[{last_bit}]"
+      return one_bit_template.format( **locals() )
     else:
       return template.format( **locals() )
 
